@@ -7,8 +7,8 @@ NOTES = ('All checks are run by ./cv (see DESIGN.md). Exit 0 = every registered 
 META = {
  'C01': dict(text='heap_order_check proved equal to the (time asc, priority desc, handle asc) order and a strict total order for all bit patterns (loop-free proof).',
              note='NaN times excluded (schedule asserts time >= clock).'),
- 'C02': dict(text='The five comparison functions used with a hashheap are proved strict (total/weak) orders.',
-             note=''),
+ 'C02': dict(text='Every public operation of src/cmi_hashheap.c is checked from an ARBITRARY well-formed pre-state (representation invariant incl. the probe-chain condition; abstract view by ghost key) for capacity 2 / map 4 incl. one doubling: invariant preserved and the view changes exactly as specified; hash range proved for the real hash function (z3); the five comparison functions proved strict orders. Bounded in capacity, inductive in the history.',
+             note='hash_key abstracted to an uninterpreted function of (key, exponent); memset/memcpy given word-wise definitions; capacities above 2->4 not covered in the quick tier; caller-supplied keys unique; termination of hash_find_slot not proved.'),
  'C05': dict(text='resource_grab contract (requires holder == NULL) enforced on its body and asserted at every call site; acquire proved with a loop contract for any number of waits against contract stubs of the guard; release/preempt/drop preserve I-RES for record lists <= 2 (bounded-shape); queries loop-free.',
              note='guard/timeseries/event layers replaced by contract stubs; other processes act only through the API; list caps for bounded-shape groups.'),
  'C11': dict(text='cmb_buffer_get/put proved with loop contracts on the real while(true) loops (any number of partial transfers and waits, all 64-bit amounts): per-segment conservation, exact reporting, 0<=level<=capacity; I-SIG and I-REC at every suspension point.',
